@@ -10,7 +10,8 @@
         converged   every node's routing table holds its K nearest other nodes
    kind "hit":  one value lookup (real IterativeValueFinder, consumed until it ends) from a node other than the announcer
         found       the announcer (node id, address, tcp port) was among the yielded peers
-        age_hi      upper bound of (end of lookup - EARLIEST store time on any storing node), rounded up
+        age_hi      upper bound of (end of lookup - EARLIEST store time, on any storing node, of the announcer's LATEST
+                    announcement of the blob), rounded up
         age_lo      lower bound of (start of lookup - LATEST store time on any storing node), rounded down
         day         24 h in ticks
    kind "paging": n announcers stored on ONE real node through real store datagrams, fetched by the real finder (or
